@@ -364,43 +364,7 @@ func checkWorkerOwnership(prog *core.Program, r1, r2, r3, r4, r6, r8 *core.RuleR
 		r4.OK(name+":encode-buffer", p.marshal.Pos(), "encoding/json allocates a fresh result per call")
 	}
 	// ---- R12.6 mirror copy ----
-	allInstrs(fn, func(ins ssa.Instruction) {
-		sel, ok := ins.(*ssa.Select)
-		if !ok {
-			return
-		}
-		for _, st := range sel.States {
-			if st.Dir != types.SendOnly || !isUDPChan(st.Chan) {
-				continue
-			}
-			key := name + ":mirror-own-buffer"
-			// the body of the sent struct: append(X[:0], msg.body...) with X from a Get of this iteration
-			okCopy := false
-			for v := range core.BackwardSlice(st.Send, core.SliceOpts{}) {
-				ap, ok := v.(*ssa.Call)
-				if !ok {
-					continue
-				}
-				if b, ok := ap.Common().Value.(*ssa.Builtin); !ok || b.Name() != "append" {
-					continue
-				}
-				fromGet := false
-				for a := range core.BackwardSlice(ap.Common().Args[0], core.SliceOpts{}) {
-					if c, ok := a.(*ssa.Call); ok {
-						if _, op := poolOf(c); op == "Get" && loop != nil && loop.Contains(c) {
-							fromGet = true
-						}
-					}
-				}
-				if sl, ok := ap.Common().Args[0].(*ssa.Slice); ok && fromGet {
-					if h, ok := ssaConstInt(sl.High); ok && h == 0 {
-						okCopy = true
-					}
-				}
-			}
-			r6.Check(okCopy, key, sel.Pos(), "mirror body = append(<fresh pool buffer>[:0], body...)", "the datagram handed to the mirror queue is not a copy in its own pool buffer: the mirror goroutine reads a buffer the worker has already recycled")
-		}
-	})
+	checkMirrorOwnBuffer(r6, fn, loop, name)
 	// ---- R12.8 decoded message does not escape ----
 	esc := ""
 	for ins := range core.AliasUses(p.decode) {
@@ -760,4 +724,47 @@ func sharedStoresThroughRecv(f *ssa.Function) []ssa.Instruction {
 		}
 	})
 	return out
+}
+
+// checkMirrorOwnBuffer (R12.6 / R13.6): what a worker hands to the mirror queue is a copy of the datagram in a pool
+// buffer of its own. The mirror loop releases the buffer of every message it takes from that queue, so queueing the
+// received message itself (or a struct sharing its body) means the receive buffer is released twice.
+func checkMirrorOwnBuffer(r6 *core.RuleRun, fn *ssa.Function, loop *core.Loop, name string) {
+	allInstrs(fn, func(ins ssa.Instruction) {
+		sel, ok := ins.(*ssa.Select)
+		if !ok {
+			return
+		}
+		for _, st := range sel.States {
+			if st.Dir != types.SendOnly || !isUDPChan(st.Chan) {
+				continue
+			}
+			key := name + ":mirror-own-buffer"
+			// the body of the sent struct: append(X[:0], msg.body...) with X from a Get of this iteration
+			okCopy := false
+			for v := range core.BackwardSlice(st.Send, core.SliceOpts{}) {
+				ap, ok := v.(*ssa.Call)
+				if !ok {
+					continue
+				}
+				if b, ok := ap.Common().Value.(*ssa.Builtin); !ok || b.Name() != "append" {
+					continue
+				}
+				fromGet := false
+				for a := range core.BackwardSlice(ap.Common().Args[0], core.SliceOpts{}) {
+					if c, ok := a.(*ssa.Call); ok {
+						if _, op := poolOf(c); op == "Get" && loop != nil && loop.Contains(c) {
+							fromGet = true
+						}
+					}
+				}
+				if sl, ok := ap.Common().Args[0].(*ssa.Slice); ok && fromGet {
+					if h, ok := ssaConstInt(sl.High); ok && h == 0 {
+						okCopy = true
+					}
+				}
+			}
+			r6.Check(okCopy, key, sel.Pos(), "mirror body = append(<fresh pool buffer>[:0], body...)", "the datagram handed to the mirror queue is not a copy in its own pool buffer: the mirror goroutine reads a buffer the worker has already recycled")
+		}
+	})
 }
